@@ -15,6 +15,8 @@
 //          w <id> <hi>          upper(node) := hi, nothing re-aggregated (tree becomes "dirty": annotations stale)
 //          a <id>               _rbtree.aggregate_path(node)    (public rbtree API; early stop observable when dirty)
 //          A                    aggregate_node on every node, children first (tree clean again)
+//          cfg <n> enum <u> <shard> <nshards>   (alone) self-enumeration of all insertion sequences of n intervals over
+//                               {0..u-1} x all queries, digest output -- see run_enum below
 // While dirty, i / r are skipped (the functional model recomputes whole paths, the code stops early: they are only
 // equal on clean trees -- that is theorem C07_early_stop_sound) and the oracle is silent (stale annotations are
 // the point of the w/a ops; queries on a dirty tree are outside the property, they are still compared with the model).
